@@ -388,6 +388,73 @@ theorem call_runs_to_completion (fuel : Nat) (k : Label) (ch : Stmt) (e : Option
   · exact hP.elim
   · exact ⟨stc', t, hr, hk, hs⟩
 
+/-- what the C function returns for an outcome of its body: PT_END turns falling off the end into exited -/
+def finish : Option Out → Option Res
+  | some (.normal st1 _ _ t) => some (.code .exited st1 t)
+  | some (.ret c st1 _ t) => some (.code c st1 t)
+  | some (.abort t) => some (.abort t)
+  | none => none
+
+/-- `resume_is_residual` for a whole invocation: calling the function while `*pt = l` (a planted label)
+is running the program text after `l`, from its start, as a fresh invocation -/
+theorem invoke_is_residual (fuel : Nat) (body : Stmt) (st : St) (l : Label)
+    (hl : l ∈ labels body) (h0 : l ≠ 0) (hpt : st.me.pt = l) :
+    invoke fuel body st = finish (exec fuel (residual body l) none .yielded 0 st) := by
+  unfold invoke
+  rw [hpt, entryOf_label hl h0]
+  dsimp only
+  rw [resume_is_residual fuel body l .yielded 0 st hl hpt]
+  cases exec fuel (residual body l) none .yielded 0 st with
+  | none => rfl
+  | some r => cases r <;> rfl
+
+/-- ... and calling it while `*pt = 0` (after PT_INIT) runs the body from its start -/
+theorem invoke_from_init (fuel : Nat) (body : Stmt) (st : St) (hpt : st.me.pt = 0) :
+    invoke fuel body st = finish (exec fuel body none .yielded 0 st) := by
+  unfold invoke
+  rw [hpt]
+  simp only [entryOf, if_true]
+  cases exec fuel body none .yielded 0 st with
+  | none => rfl
+  | some r => cases r <;> rfl
+
+theorem mainLoop_mono {f f' : Nat} (hf : f ≤ f') (body : Stmt) : ∀ k st logs,
+    mainLoop f body k st = some logs → mainLoop f' body k st = some logs := by
+  intro k
+  induction k with
+  | zero => intro st logs h; exact h
+  | succ k ih =>
+    intro st logs h
+    rw [mainLoop] at h ⊢
+    cases hi : invoke f body st.bump with
+    | none => rw [hi] at h; cases h
+    | some res =>
+      rw [hi] at h; rw [invoke_mono hf hi]
+      cases res with
+      | abort t => exact h
+      | code c st1 t =>
+        dsimp only at h ⊢
+        by_cases hb : c.blocking = true
+        · rw [if_pos hb] at h ⊢
+          rcases Option.map_eq_some_iff.1 h with ⟨logs', hl', rfl⟩
+          rw [ih st1 logs' hl']; rfl
+        · rw [if_neg hb] at h ⊢; exact h
+
+theorem seqRun_mono {f f' : Nat} (hf : f ≤ f') {body n st evs} (h : seqRun f body n st = some evs) :
+    seqRun f' body n st = some evs := by
+  rw [seqRun_eq] at h ⊢
+  rcases Option.map_eq_some_iff.1 h with ⟨r, hr, rfl⟩
+  rw [exec_mono hf hr]; rfl
+
+/-- `invocations_concat` irrespective of fuel: whenever the sequential run and the real invocations both
+finish (each within its own fuel), the concatenated per-invocation logs are the sequential trace -/
+theorem invocations_concat_any_fuel (f f' : Nat) (body : Stmt) (n : Nat) (st : St) (evs : List Ev)
+    (logs : List (List Ev × Nat)) (hwf : WF body) (h0 : st.me.pt = 0)
+    (hs : seqRun f' body n st = some evs) (hm : mainLoop f body (n + 1) st = some logs) : flatLog logs = evs := by
+  have h1 := invocations_concat (max f f') body n st evs hwf h0 (seqRun_mono (Nat.le_max_right f f') hs)
+  rw [mainLoop_mono (Nat.le_max_left f f') body _ _ _ hm] at h1
+  simpa using h1
+
 /-! ## Non-vacuity: a concrete body with a blocking point in a loop in a conditional, a child spawned
 from inside a loop, PT_WAIT_UNTIL with a side-effecting condition, PT_CALL and PT_CHILD_OK -/
 
